@@ -89,15 +89,22 @@ fn load_world(repo: &Path, work: &Path) -> World {
         ),
         (
             "syn_shapes__q",
-            "schema { query: Query mutation: Mut }\nscalar Stamp\ntype Query { grid: [[Int!]!]!, maybe: [[Stamp]], thing(id: ID! = \"1\", f: Filter = {n: 1}): Thing }\ntype Mut { touch(at: Stamp!): Stamp }\ninterface Thing { id: ID!, legacyId: Int @deprecated(reason: \"use id\") }\ntype A implements Thing { id: ID!, legacyId: Int, a: [A!] }\ntype B implements Thing { id: ID!, legacyId: Int, b: Float, flags: [Boolean]!, m: Mode }\nunion AB = A | B\nenum Mode { FAST SLOW @deprecated(reason: \"too slow\") }\ninput Filter { n: Int = 3, lim: Int! = 10, mode: Mode = FAST, on: Boolean! = true, ratio: Float, tags: [String!] = [\"x\"], strict: [Int!]! = [1], inner: Filter }\n",
-            "query Shapes($f: Filter) { grid maybe thing(id: \"2\", f: $f) { __typename id legacyId ... on A { a { id } } ... on B { b flags m } } }\n",
+            "schema { query: Query mutation: Mut }\nscalar Stamp\ntype Query { grid: [[Int!]!]!, cube: [[[Int!]!]!]!, maybe: [[Stamp]], thing(id: ID! = \"1\", f: Filter = {n: 1}): Thing }\ntype Mut { touch(at: Stamp!): Stamp }\ninterface Thing { id: ID!, legacyId: Int @deprecated(reason: \"use id\") }\ntype A implements Thing { id: ID!, legacyId: Int, a: [A!] }\ntype B implements Thing { id: ID!, legacyId: Int, b: Float, flags: [Boolean]!, m: Mode }\nunion AB = A | B\nenum Mode { FAST SLOW @deprecated(reason: \"too slow\") }\ninput Filter { n: Int = 3, lim: Int! = 10, mode: Mode = FAST, on: Boolean! = true, ratio: Float, tags: [String!] = [\"x\"], strict: [Int!]! = [1], inner: Filter }\n",
+            "query Shapes($f: Filter) { grid cube maybe thing(id: \"2\", f: $f) { __typename id legacyId ... on A { a { id } } ... on B { b flags m } } }\n",
         ),
     ];
     // further operations against the same synthetic schemas: mutation and subscription roots
     // with custom names
     let shapes_sdl = syn.iter().find(|(n, _, _)| *n == "syn_shapes__q").map(|(_, s, _)| *s).unwrap_or("");
     let ext_sdl = syn.iter().find(|(n, _, _)| *n == "syn_ext__q").map(|(_, s, _)| *s).unwrap_or("");
+    // root types by default names, without a `schema { }` block: all three, and query only
+    let noschema_sdl = "type Query { hello(name: String = \"you\"): String, count: Int! }\ntype Mutation { bump(by: Int! = 1): Int! }\ntype Subscription { ticks: Int }\n";
+    let queryonly_sdl = "enum Level { LOW MID HIGH }\ntype Query { level: Level!, levels: [Level!] }\n";
     let more: Vec<(&str, &str, &str)> = vec![
+        ("syn_noschema__q", noschema_sdl, "query Hello($n: String) { hello(name: $n) count }\n"),
+        ("syn_noschema__m", noschema_sdl, "mutation Bump($by: Int!) { bump(by: $by) }\n"),
+        ("syn_noschema__s", noschema_sdl, "subscription T { ticks }\n"),
+        ("syn_queryonly__q", queryonly_sdl, "query L { level levels }\n"),
         ("syn_shapes__m", shapes_sdl, "mutation Touch($at: Stamp!, $f: Filter) { touch(at: $at) }\n"),
         ("syn_ext__s", ext_sdl, "subscription Ticks { tick }\n"),
     ];
